@@ -6,6 +6,7 @@ package main
 // counter that the controller cannot reach.  A watchdog reports a Wait that never returns.
 
 import (
+	"context"
 	"math/rand"
 	"runtime"
 	"sync"
@@ -33,6 +34,13 @@ func runWaitStress(rng *rand.Rand, idx int, tier string) Case {
 		done[g] = make([]atomic.Bool, K)
 	}
 	nh := 1 + rng.Intn(2)
+	// half of the runs: the handlers are Async+Sequential (deliveries queue up behind each other), and some events are
+	// published with a context that is already cancelled (they are skipped; Wait must still return)
+	seqAll := rng.Intn(2) == 0
+	deadEvery := 4 + rng.Intn(5)
+	isDead := func(i int) bool { return seqAll && i%deadEvery == deadEvery-1 }
+	dead, cancelDead := context.WithCancel(context.Background())
+	cancelDead()
 	var running atomic.Int64
 	for h := 0; h < nh; h++ {
 		first := h == 0
@@ -45,7 +53,12 @@ func runWaitStress(rng *rand.Rand, idx int, tier string) Case {
 				done[e.G][e.I].Store(true)
 			}
 			running.Add(-1)
-		}, eb.Async())
+		}, func() []eb.SubscribeOption {
+			if seqAll {
+				return []eb.SubscribeOption{eb.Async(), eb.Sequential()}
+			}
+			return []eb.SubscribeOption{eb.Async()}
+		}()...)
 	}
 	var early, escaped atomic.Int64
 	finished := make(chan struct{})
@@ -61,11 +74,15 @@ func runWaitStress(rng *rand.Rand, idx int, tier string) Case {
 					}
 				}()
 				for i := 0; i < K; i++ {
-					eb.Publish(bus, wsE{g, i})
+					if isDead(i) {
+						eb.PublishContext(bus, dead, wsE{g, i})
+					} else {
+						eb.Publish(bus, wsE{g, i})
+					}
 					if i%every == 0 {
 						bus.Wait()
 						for j := 0; j <= i; j++ {
-							if !done[g][j].Load() {
+							if !isDead(j) && !done[g][j].Load() {
 								early.Add(1)
 								break
 							}
@@ -85,8 +102,14 @@ func runWaitStress(rng *rand.Rand, idx int, tier string) Case {
 		stuck = true
 	}
 	return Case{Input: Tup(Nat(G), Nat(min(K, 4000)), Nat(every)),
-		Obs:        C("Build_wsobs", Nat(int(min(early.Load(), 4000))), B(stuck), Nat(int(escaped.Load())), Nat(int(running.Load()))),
-		Tags:       []string{"goroutines" + string(rune('0'+G))},
+		Obs: C("Build_wsobs", Nat(int(min(early.Load(), 4000))), B(stuck), Nat(int(escaped.Load())), Nat(int(running.Load()))),
+		Tags: func() []string {
+			t := []string{"goroutines" + string(rune('0'+G))}
+			if seqAll {
+				t = append(t, "async-sequential", "cancelled-publishes")
+			}
+			return t
+		}(),
 		Nontrivial: true}
 }
 
